@@ -20,6 +20,7 @@ RULE = (
     "blocks, multi-chunk core dims for apply_gufunc, mismatched chunking in stack/concat, reshape, many-chunk "
     "cumulative_*); a case (recipe, configuration) is non-trivial when cubed raised (its type and phase are "
     "judged) or ran to completion on a multi-block input (no mid-run failure); distinct by hash"
+    " Plus a bounded-exhaustive parameter sweep: single-operation recipes enumerating the discrete parameters of the public functions for 1-3 dimensions (every ordered choice of tensordot contraction axes; per-dimension {all, reversed, strided, reversed+strided, integer} indexing with a new axis at every position; all axis permutations, moveaxis pairs, flip/reduction axis subsets x keepdims, roll, arg-reductions, scans, diff, repeat, take, unstack, concat/stack/expand_dims positions, pad widths, tril/triu offsets, vecdot axes: 857 cases), geometry drawn at random, each run optimised and unoptimised."
 )
 ASSUMPTIONS = [
     "runs are fault free (no injection), so any exception after executor entry is cubed's own",
@@ -33,7 +34,7 @@ ALLOWED = {"ValueError", "TypeError", "NotImplementedError", "IndexError"}
 def shards(tier, seed):
     return [
         {"n": PER_SHARD[tier], "maxdim": 9 if tier == "quick" else 13, "depth": 4 if tier == "quick" else 6,
-         "watchdog_s": TIMEOUT[tier] - 30}
+         "watchdog_s": TIMEOUT[tier] - 30, "sweep_of": 16 if tier == "quick" else 4}
         for _ in range(NSHARDS[tier])
     ]
 
@@ -100,6 +101,7 @@ def finalize(tier, merged):
     return {
         "rule": RULE,
         "floors": [
+            ("parameter-sweep cases run (of 857 enumerated)", c.get("param_sweep_cases", 0), 700),
             ("exceptions judged (type+phase)", c.get("exceptions_judged", 0), 150 if tier == "quick" else 1000),
             ("runs completed without mid-run failure", c.get("completed", 0), 1500 if tier == "quick" else 10000),
         ],
